@@ -55,7 +55,7 @@ PRINTER = "grep-printer"
 
 UNITS = [
     unit("c09_base64_roundtrip", ["C09"], PRINTER, "jsont::verif_kani",
-         "jsont::base64_standard on fully symbolic <=5 bytes: RFC 4648 reference decoder recovers exactly the input; length, padding",
+         "jsont::base64_standard on fully symbolic <=4 bytes: RFC 4648 reference decoder recovers exactly the input; length, padding",
          ["jsont::base64_standard"], timeout=900),
     unit("c09_data_from_bytes", ["C09"], PRINTER, "jsont::verif_kani",
          "jsont::Data::from_bytes on fully symbolic <=4 bytes: Text iff valid UTF-8 (independent validator), bytes preserved",
@@ -329,48 +329,40 @@ FAMILIES = [
     NulFamily("c14_slice_convert", ["C14"], SEARCHER, CORE_MOD, GEN,
               "slice strategy, convert detection: exactly one binary notice, before any line; finish reports the first NUL's offset",
               SLOW_E2E_FUNCS + ("Core::detect_binary",), timeout=900, rules=searcher_rules(2)),
-    NulFamily("c14_reader_quit_tiny", ["C14"], SEARCHER, CORE_MOD, GEN,
-              "reader strategy (capacity 1, 1-byte reads), quit detection: delivered is a PREFIX of the search of the input cut at the "
-              "first NUL, no NUL reaches the sink, one binary notice at that offset, finish reports it",
-              READER_FUNCS + ("ReadByLine::fill", "LineBuffer::fill"), heavy=True, timeout=1200, rules=searcher_rules(2)),
-    NulFamily("c14_reader_quit_wide", ["C14"], SEARCHER, CORE_MOD, GEN,
-              "reader strategy (capacity 4, 2-byte reads), quit detection: prefix / no NUL / one notice",
-              READER_FUNCS, heavy=True, timeout=1200, rules=searcher_rules(2)),
-    NulFamily("c14_reader_convert_tiny", ["C14"], SEARCHER, CORE_MOD, GEN,
-              "reader strategy (capacity 1, 1-byte reads), convert detection: delivered == search of the input with every NUL "
-              "replaced by the terminator + one binary notice at the first NUL",
-              READER_FUNCS + ("line_buffer::replace_bytes",), heavy=True, timeout=1200, rules=searcher_rules(2), two=True),
-    NulFamily("c14_reader_convert_mid", ["C14"], SEARCHER, CORE_MOD, GEN,
-              "reader strategy (capacity 2, 3-byte reads), convert detection", READER_FUNCS, heavy=True, timeout=1200,
-              rules=searcher_rules(2), two=True),
-    ShapeFamily("c02_reader_ctx_tiny", ["C02"], SEARCHER, CORE_MOD, GEN,
-                "ReadByLine over LineBufferReader with initial capacity 1 and 1-byte reads (a roll and a grow at every byte) "
-                "== grep model (== slice strategy); symbolic hit table, A,B in 0..=1, invert, line numbers",
-                READER_FUNCS, heavy=True, timeout=1200, rules=searcher_rules(2),
-                quick_shapes=["q_empty", "q_one_unterm", "q_one", "q_blank", "q_two", "q_blank_mid", "q_blank_first", "q_blank_last",
-                              "q_crlf_mix", "q_crlf_blank", "q_nul", "z_nl_in_record"],
+    NulFamily("c14_reader_quit", ["C14"], SEARCHER, CORE_MOD, GEN,
+              "reader strategy, quit detection: delivered is a PREFIX of the search of the input cut at the first NUL, no NUL "
+              "reaches the sink, one binary notice at that offset, finish reports it; hit patterns x invert x (A,B) in "
+              "{(0,0),(1,1)} x fragmentation {(1,1),(4,2)} enumerated in-harness; line numbering symbolic",
+              READER_FUNCS + ("ReadByLine::fill", "LineBuffer::fill"), heavy=True, timeout=1500, rules=searcher_rules(2),
+              unwind=lambda sh: 40),
+    NulFamily("c14_reader_convert", ["C14"], SEARCHER, CORE_MOD, GEN,
+              "reader strategy, convert detection: delivered == search of the input with every NUL replaced by the terminator + "
+              "one binary notice at the first NUL; enumerated as above, fragmentation {(1,1),(2,3)}",
+              READER_FUNCS + ("line_buffer::replace_bytes",), heavy=True, timeout=1500, rules=searcher_rules(2), two=True,
+              unwind=lambda sh: 40),
+    ShapeFamily("c02_reader_tiny", ["C02"], SEARCHER, CORE_MOD, GEN,
+                "ReadByLine over LineBufferReader, capacity 1 / 1-byte reads (a roll and a grow at every byte) == grep model "
+                "(== slice strategy); hit patterns x invert x (A,B) in {(0,0),(1,1)} enumerated in-harness; line numbering symbolic",
+                READER_FUNCS, timeout=1500, rules=searcher_rules(2), unwind=lambda sh: 40,
+                quick_shapes=["q_empty", "q_one_unterm", "q_blank", "q_two", "q_blank_mid", "q_blank_first", "q_crlf_blank", "q_nul", "z_nl_in_record"],
                 shape_filter=lambda sh: sh.nl <= 3 and len(sh.hay) <= 7),
+    ShapeFamily("c02_reader_wide", ["C02"], SEARCHER, CORE_MOD, GEN,
+                "reader strategy, fragmentation (2,3) and (4,2), contexts (1,0),(0,1), stop-on-nonmatch off/on (incl. final byte count "
+                "== slice strategy's) == grep model", READER_FUNCS, timeout=1500, rules=searcher_rules(2), unwind=lambda sh: 40,
+                quick_shapes=["q_two", "q_blank_mid", "q_blank_last", "q_nul"], shape_filter=lambda sh: sh.nl <= 3 and len(sh.hay) <= 7),
+    ShapeFamily("c02_reader_passthru", ["C02"], SEARCHER, CORE_MOD, GEN,
+                "reader strategy with passthru (x invert x stop-on-nonmatch) == grep model",
+                READER_FUNCS, timeout=1500, rules=searcher_rules(2), unwind=lambda sh: 40,
+                quick_shapes=["q_two", "q_blank_mid"], shape_filter=lambda sh: sh.nl <= 3 and len(sh.hay) <= 7),
     ShapeFamily("c02_reader_reuse", ["C02", "C03"], SEARCHER, CORE_MOD, GEN,
                 "one line buffer reused for two consecutive reader searches (as Searcher does per file): both runs == grep model "
                 "(offsets and byte count start from zero again)",
-                READER_FUNCS + ("LineBufferReader::new", "LineBuffer::clear"), heavy=True, timeout=1200, rules=searcher_rules(2),
-                quick_shapes=["q_two", "q_blank_mid"]),
-    ShapeFamily("c02_reader_ctx_mid", ["C02"], SEARCHER, CORE_MOD, GEN,
-                "reader strategy, capacity 2 / 3-byte reads == grep model", READER_FUNCS, heavy=True, timeout=1200, rules=searcher_rules(2),
-                quick_shapes=["q_two", "q_blank_mid", "q_crlf_mix"], shape_filter=lambda sh: sh.nl <= 3 and len(sh.hay) <= 6),
-    ShapeFamily("c02_reader_ctx_wide", ["C02"], SEARCHER, CORE_MOD, GEN,
-                "reader strategy, capacity 4 / 2-byte reads == grep model", READER_FUNCS, heavy=True, timeout=1200, rules=searcher_rules(2),
-                quick_shapes=["q_two", "q_blank_mid", "q_nul"], shape_filter=lambda sh: sh.nl <= 3 and len(sh.hay) <= 6),
-    ShapeFamily("c02_reader_stop", ["C02"], SEARCHER, CORE_MOD, GEN,
-                "reader strategy (capacity 1, 1-byte reads) == grep model with stop-on-nonmatch ON (incl. final byte count == slice strategy's)",
-                READER_FUNCS, heavy=True, timeout=1200, rules=searcher_rules(2), quick_shapes=["q_two", "q_blank_mid"], shape_filter=lambda sh: sh.nl <= 3 and len(sh.hay) <= 6),
-    ShapeFamily("c02_reader_passthru", ["C02"], SEARCHER, CORE_MOD, GEN,
-                "reader strategy (capacity 2, 3-byte reads) == grep model with passthru ON",
-                READER_FUNCS, heavy=True, timeout=1200, rules=searcher_rules(2), quick_shapes=["q_two", "q_blank_mid"], shape_filter=lambda sh: sh.nl <= 3 and len(sh.hay) <= 6),
+                READER_FUNCS + ("LineBufferReader::new", "LineBuffer::clear"), timeout=1500, rules=searcher_rules(2),
+                unwind=lambda sh: 40, quick_shapes=["q_two", "q_blank_mid"], shape_filter=lambda sh: sh.nl <= 3 and len(sh.hay) <= 7),
     ShapeFamily("c16_slice", ["C16"], SEARCHER, CORE_MOD, GEN,
                 "slice strategy: sink refuses (stop) or fails at symbolic event index k: delivered == prefix of full "
                 "stream (+ exactly one finish after stop, none after error)",
-                SLOW_E2E_FUNCS, timeout=900, rules=searcher_rules(2), quick_shapes=["q_one", "q_two", "q_blank_mid", "q_crlf_mix", "q_four"], shape_filter=lambda sh: sh.nl <= 4 and len(sh.hay) <= 9),
+                SLOW_E2E_FUNCS, heavy=True, timeout=900, rules=searcher_rules(2), quick_shapes=["q_one", "q_two", "q_blank_mid", "q_crlf_mix", "q_four"], shape_filter=lambda sh: sh.nl <= 4 and len(sh.hay) <= 9),
     ShapeFamily("c16_reader", ["C16"], SEARCHER, CORE_MOD, GEN,
                 "reader strategy: sink refuses or fails at symbolic event index k: prefix property",
                 READER_FUNCS, heavy=True, timeout=900, rules=searcher_rules(2), shape_filter=lambda sh: sh.nl <= 2 and len(sh.hay) <= 4),
